@@ -17,6 +17,7 @@ snapshot the real span exported (`spanMatchesReference`, `exportWellFormed`).
 -/
 import Otel.Base.Truncate
 import Otel.C04.Types
+import Otel.C04.Caller
 namespace Otel.C04.Spec
 open Otel Otel.C04
 
@@ -142,5 +143,15 @@ def exportWellFormed (lim : Limits) (x : Snap) : Bool :=
   (x.status.code == 1 || x.status.desc == []) &&
   (lim.attrCount != 0 || x.attrs == []) &&
   (lim.eventCount < 0 → x.droppedEvents = 0) && (lim.linkCount < 0 → x.droppedLinks = 0)
+
+/-- the oracle for caller scripts (arguments taken from caller-owned arrays that are written to afterwards): ARGUMENTS
+ARE VALUES — both the snapshot handed to OnEnd and the span read back after the last step (each looked at after the
+caller's last write) are the reference export of the calls with the argument values of their moment, and the
+caller's arrays hold the caller's own writes and nothing else -/
+def callerScriptOK (lim : Limits) (name : Bytes) (caps : List Nat) (cops : List COp)
+    (atEnd live : Snap) (bufs : Bufs) : Bool :=
+  spanMatchesReference lim name (resolveAll (initBufs caps) cops) atEnd &&
+  spanMatchesReference lim name (resolveAll (initBufs caps) cops) live &&
+  bufs == callerBufs (initBufs caps) cops
 
 end Otel.C04.Spec
